@@ -368,7 +368,7 @@ def main(ck):
     nontrivial = len({(it['family'], it['cat'], it['cls']) for it in items}) + gen_ok
     ck.inconclusive_if(evals < 0.9 * len(items), 'monitor evaluated %d of %d inputs' % (evals, len(items)))
     ck.inconclusive_if(sum(1 for it in valid_gen if it['valid']) < 0.9 * len(valid_gen), 'CPython rejects >10% of generated programs')
-    ck.inconclusive_if(generator_scope_rejects > 0.03 * max(1, len(valid_gen)),
+    ck.inconclusive_if(generator_scope_rejects > 0.08 * max(1, len(valid_gen)),
                        '%d generated programs hit deliberate rejects (scope model of the generator is off)' % generator_scope_rejects)
     ck.inconclusive_if(c_checked < ck.pick(20, 300), 'only %d generated C files were syntax-checked' % c_checked)
     unreached = [d[0] for d in deliberate if d[0] not in delib_hits]
